@@ -757,3 +757,102 @@ mod tests {
         }
     }
 }
+
+/// Verification hooks: public wrappers around the crate-private RTU codec items.
+#[cfg(feature = "verif-hooks")]
+#[allow(unreachable_pub, missing_docs, clippy::pedantic)]
+pub mod verif_hooks {
+    use std::io::{Error, Result};
+
+    use tokio_util::codec::{Decoder, Encoder};
+
+    use crate::{
+        bytes::BytesMut,
+        frame::{rtu::*, RequestPdu, ResponsePdu},
+        slave::SlaveId,
+        ExceptionResponse, Request, Response,
+    };
+
+    #[must_use]
+    pub fn calc_crc(data: &[u8]) -> u16 {
+        super::calc_crc(data)
+    }
+
+    pub fn get_request_pdu_len(adu_buf: &BytesMut) -> Result<Option<usize>> {
+        super::get_request_pdu_len(adu_buf)
+    }
+
+    pub fn get_response_pdu_len(adu_buf: &BytesMut) -> Result<Option<usize>> {
+        super::get_response_pdu_len(adu_buf)
+    }
+
+    #[derive(Debug, Default)]
+    pub struct ClientCodec(super::ClientCodec);
+
+    #[derive(Debug, Default)]
+    pub struct ServerCodec(super::ServerCodec);
+
+    impl Decoder for ClientCodec {
+        type Item = (SlaveId, std::result::Result<Response, ExceptionResponse>);
+        type Error = Error;
+
+        fn decode(&mut self, buf: &mut BytesMut) -> Result<Option<Self::Item>> {
+            Ok(self.0.decode(buf)?.map(|adu| (adu.hdr.slave_id, adu.pdu.0)))
+        }
+
+        fn decode_eof(&mut self, buf: &mut BytesMut) -> Result<Option<Self::Item>> {
+            Ok(self
+                .0
+                .decode_eof(buf)?
+                .map(|adu| (adu.hdr.slave_id, adu.pdu.0)))
+        }
+    }
+
+    impl Decoder for ServerCodec {
+        type Item = (SlaveId, Request<'static>);
+        type Error = Error;
+
+        fn decode(&mut self, buf: &mut BytesMut) -> Result<Option<Self::Item>> {
+            Ok(self.0.decode(buf)?.map(|adu| (adu.hdr.slave_id, adu.pdu.0)))
+        }
+
+        fn decode_eof(&mut self, buf: &mut BytesMut) -> Result<Option<Self::Item>> {
+            Ok(self
+                .0
+                .decode_eof(buf)?
+                .map(|adu| (adu.hdr.slave_id, adu.pdu.0)))
+        }
+    }
+
+    impl<'a> Encoder<(SlaveId, Request<'a>)> for ClientCodec {
+        type Error = Error;
+
+        fn encode(
+            &mut self,
+            (slave_id, request): (SlaveId, Request<'a>),
+            buf: &mut BytesMut,
+        ) -> Result<()> {
+            let adu = RequestAdu {
+                hdr: Header { slave_id },
+                pdu: RequestPdu(request),
+            };
+            self.0.encode(adu, buf)
+        }
+    }
+
+    impl Encoder<(SlaveId, std::result::Result<Response, ExceptionResponse>)> for ServerCodec {
+        type Error = Error;
+
+        fn encode(
+            &mut self,
+            (slave_id, result): (SlaveId, std::result::Result<Response, ExceptionResponse>),
+            buf: &mut BytesMut,
+        ) -> Result<()> {
+            let adu = ResponseAdu {
+                hdr: Header { slave_id },
+                pdu: ResponsePdu(result),
+            };
+            self.0.encode(adu, buf)
+        }
+    }
+}
